@@ -754,17 +754,12 @@ impl Regex {
             .map(|pos| self.input_from_position[pos as usize].clone())
             .collect();
 
-        let mut prev_ambiguous: Option<RegexInput> = None;
         for inp in inputs {
             if let Some(ref prev_inp) = path_prev_ambiguous {
                 return Err(Error::UnboundedMatchable(
                     prev_inp.get_span(),
                     inp.get_span(),
                 ));
-            }
-
-            if inp.is_star_subword() {
-                prev_ambiguous = Some(inp);
             }
         }
 
@@ -776,10 +771,17 @@ impl Regex {
                 continue;
             };
             visited.insert(pos);
+            // Only what can follow *this* position is constrained by it being unbounded
+            let inp = &self.input_from_position[pos as usize];
+            let prev_ambiguous = if inp.is_star_subword() {
+                Some(inp.clone())
+            } else {
+                None
+            };
             self.do_check_ambiguous_inputs_tail_only_subword(
                 follow,
                 followpos,
-                path_prev_ambiguous.clone().or(prev_ambiguous.clone()),
+                path_prev_ambiguous.clone().or(prev_ambiguous),
                 visited,
             )?;
         }
